@@ -139,6 +139,13 @@ fn publish_of(st: &ProtocolState, id: u64) -> &PublishPacket {
     match &*st.operations.get(&id).unwrap().packet { MqttPacket::Publish(p) => p, _ => panic!("gv: not a publish") }
 }
 
+/// i-th element of a deque without VecDeque's Index impl (measured: `deque[i]` after pushes exhausts memory under CBMC,
+/// as_slices + slice indexing does not)
+fn dq(d: &VecDeque<u64>, i: usize) -> u64 {
+    let (a, b) = d.as_slices();
+    if i < a.len() { a[i] } else { b[i - a.len()] }
+}
+
 fn at(secs: u64) -> Instant { zero_instant() + Duration::from_secs(secs) }
 
 fn net_ctx<'a>(events: &'a mut VecDeque<PacketEvent>, now: Instant) -> NetworkEventContext<'a> {
@@ -235,63 +242,48 @@ fn ack_back(qos: QualityOfService) {
     std::mem::forget(state);
 }
 
-// @gv props=C05,C11 tier=quick required=yes fns=ProtocolState::handle_pubrel
-// @gv bounds="one inbound PUBREL with symbolic id; inbound-QoS2 set holding 0..2 symbolic ids; 0..1 earlier ack queued"
-#[kani::proof]
-#[kani::unwind(4)]
-#[kani::stub(std::fmt::format, stub_format)]
-fn c05_pubrel_step() {
+fn pubrel_body(n_known: usize) {
     let mut state = mk_state(if kani::any() { ProtocolStateType::Connected } else { ProtocolStateType::PendingDisconnect });
     let k1: u16 = kani::any();
     let k2: u16 = kani::any();
-    let n_known: u8 = kani::any();
-    kani::assume(n_known <= 2);
     if n_known >= 1 { state.qos2_incomplete_incoming_publishes.insert(k1); }
     if n_known >= 2 { kani::assume(k2 != k1); state.qos2_incomplete_incoming_publishes.insert(k2); }
-    let earlier: bool = kani::any();
-    if earlier {
-        let id = state.create_operation(Box::new(MqttPacket::Pubrec(PubrecPacket { packet_id: 77, ..Default::default() })), None);
-        state.enqueue_operation(id, ProtocolQueueType::HighPriority, ProtocolEnqueuePosition::Back);
-    }
-    let before = state.high_priority_operation_queue.len();
+    // a stale id stands for an acknowledgement queued earlier: the PUBCOMP must go behind it
+    state.high_priority_operation_queue.push_back(900);
     let pid: u16 = kani::any();
     let r = state.handle_pubrel(Box::new(MqttPacket::Pubrel(PubrelPacket { packet_id: pid, ..Default::default() })));
     assert!(r.is_ok());
     let known = (n_known >= 1 && k1 == pid) || (n_known >= 2 && k2 == pid);
-    kani::cover!(known, "PUBREL releases a known id");
+    kani::cover!(n_known == 0 || known, "PUBREL releases a known id");
     kani::cover!(!known, "PUBREL for an unknown id");
     assert!(!state.qos2_incomplete_incoming_publishes.contains(&pid));
-    assert!(state.qos2_incomplete_incoming_publishes.len() == n_known as usize - if known { 1 } else { 0 });
+    assert!(state.qos2_incomplete_incoming_publishes.len() == n_known - if known { 1 } else { 0 });
     if n_known >= 1 && k1 != pid { assert!(state.qos2_incomplete_incoming_publishes.contains(&k1)); }
     if n_known >= 2 && k2 != pid { assert!(state.qos2_incomplete_incoming_publishes.contains(&k2)); }
-    assert!(state.high_priority_operation_queue.len() == before + 1);
+    assert!(state.high_priority_operation_queue.len() == 2);
+    assert!(*state.high_priority_operation_queue.front().unwrap() == 900);
     let op_id = *state.high_priority_operation_queue.back().unwrap();
     match &*state.operations.get(&op_id).unwrap().packet {
         MqttPacket::Pubcomp(p) => { assert!(p.packet_id == pid); }
         _ => { assert!(false); }
     }
+    assert!(state.operations.len() == 1);
     std::mem::forget(r);
     std::mem::forget(state);
 }
 
-// @gv props=C05 tier=quick required=yes fns=ProtocolState::handle_publish,ProtocolState::handle_pubrel
-// @gv bounds="two-step and three-step inbound sequences PUBLISH(q2,p) [; PUBREL(r)] ; PUBLISH(q2,p') with symbolic ids from an empty set"
-// @gv timeout=900
-#[kani::proof]
-#[kani::unwind(4)]
-#[kani::stub(std::fmt::format, stub_format)]
-fn c05_two_steps() {
+fn two_steps_body(with_release: bool) {
     let mut state = mk_state(ProtocolStateType::Connected);
     let p1: u16 = kani::any();
     let p2: u16 = kani::any();
-    let rel: Option<u16> = if kani::any() { Some(kani::any()) } else { None };
+    let r_id: u16 = kani::any();
     let mut events: VecDeque<PacketEvent> = VecDeque::new();
     {
         let mut ctx = net_ctx(&mut events, zero_instant());
         let r = state.handle_publish(Box::new(MqttPacket::Publish(PublishPacket { packet_id: p1, qos: QualityOfService::ExactlyOnce, ..Default::default() })), &mut ctx);
         assert!(r.is_ok()); std::mem::forget(r);
     }
-    if let Some(r_id) = rel {
+    if with_release {
         let r = state.handle_pubrel(Box::new(MqttPacket::Pubrel(PubrelPacket { packet_id: r_id, ..Default::default() })));
         assert!(r.is_ok()); std::mem::forget(r);
     }
@@ -300,21 +292,24 @@ fn c05_two_steps() {
         let r = state.handle_publish(Box::new(MqttPacket::Publish(PublishPacket { packet_id: p2, qos: QualityOfService::ExactlyOnce, duplicate: kani::any(), ..Default::default() })), &mut ctx);
         assert!(r.is_ok()); std::mem::forget(r);
     }
-    let released = rel == Some(p1);
+    let released = with_release && r_id == p1;
     let second_surfaced = p1 != p2 || released;
     kani::cover!(p1 == p2 && !released, "redelivery before release is suppressed");
-    kani::cover!(p1 == p2 && released, "same id after release is a new message");
+    kani::cover!(!with_release || (p1 == p2 && released), "same id after release is a new message");
+    // surfaced exactly once per identifier between first PUBLISH and the PUBREL that releases it; wire order kept
     assert!(events.len() == if second_surfaced { 2 } else { 1 });
+    if let Some(PacketEvent::Publish(p)) = events.front() { assert!(p.packet_id == p1); } else { assert!(false); }
     // acknowledgements leave in arrival order: PUBREC(p1) [PUBCOMP(r)] PUBREC(p2)
     let n = state.high_priority_operation_queue.len();
-    assert!(n == if rel.is_some() { 3 } else { 2 });
+    assert!(n == if with_release { 3 } else { 2 });
     let first = *state.high_priority_operation_queue.front().unwrap();
     let last = *state.high_priority_operation_queue.back().unwrap();
     match &*state.operations.get(&first).unwrap().packet { MqttPacket::Pubrec(p) => assert!(p.packet_id == p1), _ => assert!(false) }
     match &*state.operations.get(&last).unwrap().packet { MqttPacket::Pubrec(p) => assert!(p.packet_id == p2), _ => assert!(false) }
-    if let Some(r_id) = rel {
-        let mid = state.high_priority_operation_queue[1];
+    if with_release {
+        let mid = dq(&state.high_priority_operation_queue, 1);
         match &*state.operations.get(&mid).unwrap().packet { MqttPacket::Pubcomp(p) => assert!(p.packet_id == r_id), _ => assert!(false) }
+        assert!(first < mid && mid < last);
     }
     assert!(first < last);
     std::mem::forget(events);
@@ -792,4 +787,646 @@ fn c10_sort_cap8_head7_n4() { sort_body(8, 7, 4, true) }
 fn c10_sort_cap4_head1_n4() { sort_body(4, 1, 4, true) }
 
 
+// ------------------------------------------------------------------------------------------------
+// C14 keep-alive
+// ------------------------------------------------------------------------------------------------
+
+fn keepalive_state(k: u16, ping_timeout: Duration) -> ProtocolState {
+    let mut cfg = mk_config();
+    cfg.ping_timeout = ping_timeout;
+    let mut st = ProtocolState::new(cfg);
+    st.state = ProtocolStateType::Connected;
+    st.current_settings = Some(NegotiatedSettings { server_keep_alive: k, ..Default::default() });
+    st
+}
+
+/// K/2 seconds in exact arithmetic (K * 500 ms) without dividing a symbol by 1000
+fn half_keep_alive(k: u16) -> Duration { Duration::new((k / 2) as u64, ((k % 2) as u32) * 500_000_000) }
+
+// @gv props=C14,C11 tier=quick required=yes fns=ProtocolState::service_keep_alive
+// @gv bounds="every keep-alive K in 1..65535, every ping timeout Duration, clock and due time symbolic whole seconds (< 2^32, due <= now), no ping outstanding"
+// @gv timeout=900
+#[kani::proof]
+#[kani::unwind(4)]
+#[kani::stub(std::fmt::format, stub_format)]
+fn c14_ping_step() {
+    let k: u16 = kani::any();
+    kani::assume(k >= 1);
+    let pt = any_duration();
+    let mut st = keepalive_state(k, pt);
+    let now_s: u32 = kani::any();
+    let due_s: u32 = kani::any();
+    kani::assume(due_s <= now_s);
+    let now = at(now_s as u64);
+    st.next_ping_timepoint = Some(at(due_s as u64));
+    st.ping_timeout_timepoint = None;
+    let mut to_socket: Vec<u8> = Vec::with_capacity(16);
+    let r = {
+        let mut sctx = ServiceContext { to_socket: &mut to_socket, current_time: now };
+        st.service_keep_alive(&mut sctx)
+    };
+    assert!(r.is_ok());
+    kani::cover!(k % 2 == 1, "odd keep-alive");
+    kani::cover!(k == 1, "keep-alive of one second");
+    kani::cover!(pt < half_keep_alive(k), "configured ping timeout shorter than K/2");
+    // a PINGREQ goes to the FRONT of the high-priority queue
+    assert!(st.high_priority_operation_queue.len() == 1);
+    let id = *st.high_priority_operation_queue.front().unwrap();
+    assert!(matches!(&*st.operations.get(&id).unwrap().packet, MqttPacket::Pingreq(_)));
+    // deadline = now + min(ping timeout, K/2); next ping K seconds after this one
+    let half = half_keep_alive(k);
+    let expect = if pt < half { pt } else { half };
+    assert!(st.ping_timeout_timepoint == Some(now + expect));
+    assert!(st.next_ping_timepoint == Some(now + Duration::from_secs(k as u64)));
+    assert!(to_socket.is_empty());
+    std::mem::forget(r);
+    std::mem::forget(st);
+}
+
+// @gv props=C14,C11 tier=quick required=yes fns=ProtocolState::service_keep_alive
+// @gv bounds="a ping outstanding with symbolic deadline, clock symbolic (seconds + nanoseconds), next-ping time present or absent; and no ping outstanding with the next ping not yet due"
+// @gv timeout=900
+#[kani::proof]
+#[kani::unwind(4)]
+#[kani::stub(std::fmt::format, stub_format)]
+fn c14_deadline() {
+    let k: u16 = kani::any();
+    let mut st = keepalive_state(k, any_duration());
+    let now = zero_instant() + Duration::new(kani::any::<u32>() as u64, kani::any::<u32>() % 1_000_000_000);
+    let deadline = zero_instant() + Duration::new(kani::any::<u32>() as u64, kani::any::<u32>() % 1_000_000_000);
+    let outstanding: bool = kani::any();
+    let next = opt_time();
+    st.ping_timeout_timepoint = if outstanding { Some(deadline) } else { None };
+    st.next_ping_timepoint = next;
+    if !outstanding { if let Some(n) = next { kani::assume(n > now); } }
+    let mut to_socket: Vec<u8> = Vec::with_capacity(16);
+    let r = {
+        let mut sctx = ServiceContext { to_socket: &mut to_socket, current_time: now };
+        st.service_keep_alive(&mut sctx)
+    };
+    kani::cover!(outstanding && now == deadline, "service exactly at the deadline");
+    kani::cover!(outstanding && now < deadline, "service before the deadline");
+    // failed exactly at (not before) the deadline; a live peer is never timed out early
+    assert!(r.is_err() == (outstanding && now >= deadline));
+    // never a second ping while one is outstanding, nothing when not yet due; timers untouched
+    assert!(st.high_priority_operation_queue.is_empty());
+    assert!(st.ping_timeout_timepoint == if outstanding { Some(deadline) } else { None });
+    assert!(st.next_ping_timepoint == next);
+    std::mem::forget(r);
+    std::mem::forget(st);
+}
+
+// @gv props=C14,C11 tier=quick required=yes fns=ProtocolState::handle_pingresp
+// @gv bounds="all five engine states x ping outstanding or not"
+#[kani::proof]
+#[kani::unwind(4)]
+#[kani::stub(std::fmt::format, stub_format)]
+fn c14_pingresp() {
+    let mut st = mk_state(any_state());
+    let outstanding: bool = kani::any();
+    let next = opt_time();
+    st.ping_timeout_timepoint = if outstanding { Some(at(kani::any::<u32>() as u64)) } else { None };
+    st.next_ping_timepoint = next;
+    let r = st.handle_pingresp();
+    let live = st.state == ProtocolStateType::Connected || st.state == ProtocolStateType::PendingDisconnect;
+    kani::cover!(live && outstanding, "answer to an outstanding ping");
+    kani::cover!(live && !outstanding, "unsolicited PINGRESP");
+    assert!(r.is_ok() == (live && outstanding));
+    if r.is_ok() { assert!(st.ping_timeout_timepoint.is_none()); }
+    assert!(st.next_ping_timepoint == next);
+    std::mem::forget(r);
+    std::mem::forget(st);
+}
+
+fn extension_body(op: ClientOperation, acked_kind: bool) {
+    let k: u16 = kani::any();
+    let mut st = keepalive_state(k, Duration::from_secs(30));
+    let old = opt_time();
+    st.next_ping_timepoint = old;
+    let base = opt_time();
+    let mut op = op;
+    op.ping_extension_base_timepoint = base;
+    st.apply_ping_extension_on_operation_success(&op);
+    kani::cover!(acked_kind && base.is_some() && old.is_some() && st.next_ping_timepoint != old, "next ping pushed out");
+    let expect = match (acked_kind, base, old) {
+        (true, Some(b), Some(o)) => { let cand = b + Duration::from_secs(k as u64); Some(if cand > o { cand } else { o }) }
+        _ => old,
+    };
+    // next ping = max(old, transmission time + K) for acknowledged kinds; never later than K after that transmission
+    assert!(st.next_ping_timepoint == expect);
+    std::mem::forget(op);
+    std::mem::forget(st);
+}
+
+// @gv props=C14 tier=quick required=yes fns=ProtocolState::apply_ping_extension_on_operation_success
+// @gv bounds="completed publish with symbolic QoS; symbolic keep-alive, transmission time and current next-ping time (present/absent)"
+#[kani::proof]
+#[kani::unwind(4)]
+#[kani::stub(std::fmt::format, stub_format)]
+fn c14_extension_publish() {
+    let q = any_qos();
+    extension_body(mk_publish_op(1, None, q, false), q != QualityOfService::AtMostOnce);
+}
+
+// @gv props=C14 tier=quick required=yes fns=ProtocolState::apply_ping_extension_on_operation_success
+// @gv bounds="completed SUBSCRIBE / UNSUBSCRIBE / PINGREQ (symbolic choice)"
+#[kani::proof]
+#[kani::unwind(4)]
+#[kani::stub(std::fmt::format, stub_format)]
+fn c14_extension_other() {
+    match kani::any::<u8>() % 3 {
+        0 => extension_body(mk_subscribe_op(1, None), true),
+        1 => extension_body(mk_unsubscribe_op(1, None), true),
+        _ => extension_body(mk_internal_op(1, MqttPacket::Pingreq(PingreqPacket {})), false),
+    }
+}
+
+// @gv props=C14 tier=quick required=yes fns=ProtocolState::service_keep_alive,ProtocolState::apply_ping_extension_on_operation_success
+// @gv bounds="keep-alive 0 (no ping scheduled): any clock, any ping timeout; one service step and one acknowledged completion"
+#[kani::proof]
+#[kani::unwind(4)]
+#[kani::stub(std::fmt::format, stub_format)]
+fn c14_k0() {
+    let mut st = keepalive_state(0, any_duration());
+    st.next_ping_timepoint = None;
+    st.ping_timeout_timepoint = None;
+    let mut to_socket: Vec<u8> = Vec::with_capacity(16);
+    let r = {
+        let mut sctx = ServiceContext { to_socket: &mut to_socket, current_time: at(kani::any::<u32>() as u64) };
+        st.service_keep_alive(&mut sctx)
+    };
+    assert!(r.is_ok());
+    assert!(st.high_priority_operation_queue.is_empty() && st.next_ping_timepoint.is_none() && st.ping_timeout_timepoint.is_none());
+    let mut op = mk_publish_op(1, None, QualityOfService::AtLeastOnce, false);
+    op.ping_extension_base_timepoint = Some(at(kani::any::<u32>() as u64));
+    st.apply_ping_extension_on_operation_success(&op);
+    assert!(st.next_ping_timepoint.is_none());
+    std::mem::forget(op); std::mem::forget(r); std::mem::forget(st);
+}
+
+// ------------------------------------------------------------------------------------------------
+// C18 ack timeouts, retry counting
+// ------------------------------------------------------------------------------------------------
+
+// @gv props=C18,C11 tier=quick required=yes fns=ProtocolState::start_operation_ack_timeout,ProtocolState::get_operation_timeout_duration
+// @gv bounds="publish / subscribe / unsubscribe (symbolic choice) with an ack timeout absent or any Duration up to Duration::MAX; clock symbolic whole seconds < 2^32"
+// @gv timeout=900
+#[kani::proof]
+#[kani::unwind(4)]
+#[kani::stub(std::fmt::format, stub_format)]
+fn c18_deadline() {
+    let mut st = mk_state(ProtocolStateType::Connected);
+    let t: Option<Duration> = if kani::any() { Some(any_duration()) } else { None };
+    let kind: u8 = kani::any();
+    kani::assume(kind < 4);
+    let op = match kind {
+        0 => { let mut o = mk_publish_op(7, Some(5), QualityOfService::AtLeastOnce, false); if let Some(ClientOperationOptions::Publish(x)) = &mut o.options { x.options.ack_timeout = t; } o }
+        1 => { let mut o = mk_subscribe_op(7, Some(5)); if let Some(ClientOperationOptions::Subscribe(x)) = &mut o.options { x.options.ack_timeout = t; } o }
+        2 => { let mut o = mk_unsubscribe_op(7, Some(5)); if let Some(ClientOperationOptions::Unsubscribe(x)) = &mut o.options { x.options.ack_timeout = t; } o }
+        _ => mk_internal_op(7, MqttPacket::Pingreq(PingreqPacket {})),
+    };
+    st.operations.insert(7, op);
+    let now = at(kani::any::<u32>() as u64);
+    st.start_operation_ack_timeout(7, now); // must not panic for any timeout the options builders accept
+    let expect = if kind < 3 { match t { Some(d) => now.checked_add(d), None => None } } else { None };
+    kani::cover!(t.is_some() && expect.is_none() && kind < 3, "timeout beyond the representable range");
+    kani::cover!(expect.is_some(), "deadline recorded");
+    // a record exists iff the operation carries a (representable) timeout, and it is (operation, now + T)
+    assert!(st.operation_ack_timeouts.len() == if expect.is_some() { 1 } else { 0 });
+    if let Some(e) = expect {
+        let rec = st.operation_ack_timeouts.peek().unwrap().0;
+        assert!(rec.id == 7 && rec.timeout == e);
+    }
+    std::mem::forget(st);
+}
+
+fn due_body(n_rec: usize) {
+    let mut st = mk_state(ProtocolStateType::Connected);
+    let t1 = zero_instant() + Duration::new(kani::any::<u32>() as u64, kani::any::<u32>() % 1_000_000_000);
+    let t2 = zero_instant() + Duration::new(kani::any::<u32>() as u64, kani::any::<u32>() % 1_000_000_000);
+    st.operation_ack_timeouts.push(Reverse(OperationTimeoutRecord { id: 11, timeout: t1 }));
+    if n_rec >= 2 { st.operation_ack_timeouts.push(Reverse(OperationTimeoutRecord { id: 12, timeout: t2 })); }
+    st.current_time = zero_instant() + Duration::new(kani::any::<u32>() as u64, kani::any::<u32>() % 1_000_000_000);
+    let got = st.get_next_ack_timeout();
+    let (eid, et) = if n_rec < 2 || t1 < t2 { (11, t1) } else if t2 < t1 { (12, t2) } else { (0, t1) };
+    kani::cover!(et == st.current_time, "service exactly at the deadline");
+    kani::cover!(n_rec < 2 || t2 < t1, "second record is the earliest");
+    // fires at, never before, the deadline; the earliest record is the one returned
+    assert!(got.is_some() == (et <= st.current_time));
+    if let Some(id) = got { if eid != 0 { assert!(id == eid); } else { assert!(id == 11 || id == 12); } }
+    std::mem::forget(st);
+}
+
+// @gv props=C18 tier=quick required=yes fns=ProtocolState::get_next_ack_timeout,OperationTimeoutRecord::cmp
+// @gv bounds="one ack-timeout record; deadline and clock symbolic (seconds < 2^32 + nanoseconds)"
+#[kani::proof]
+#[kani::unwind(5)]
+fn c18_due_one() { due_body(1) }
+
+// @gv props=C18 tier=quick required=yes fns=ProtocolState::get_next_ack_timeout,OperationTimeoutRecord::cmp
+// @gv bounds="two ack-timeout records pushed in fixed order with symbolic deadlines; clock symbolic"
+#[kani::proof]
+#[kani::unwind(5)]
+fn c18_due_two() { due_body(2) }
+
+// @gv props=C18 tier=quick required=yes fns=ProtocolState::update_interrupted_retries
+// @gv bounds="three operations: a pending publish, a pending subscribe and a merely queued publish, each with a symbolic interruption count < 2^31; retry limit absent or symbolic"
+// @gv timeout=900
+#[kani::proof]
+#[kani::unwind(6)]
+#[kani::stub(std::fmt::format, stub_format)]
+fn c18_retries_counting() {
+    let mut cfg = mk_config();
+    let limit: Option<u32> = if kani::any() { Some(kani::any()) } else { None };
+    cfg.max_interrupted_retries = limit;
+    let mut st = ProtocolState::new(cfg);
+    st.state = ProtocolStateType::Connected;
+    let (c1, c2, c3): (u32, u32, u32) = (kani::any(), kani::any(), kani::any());
+    kani::assume(c1 < (1 << 31) && c2 < (1 << 31) && c3 < (1 << 31));
+    let mut a = mk_publish_op(1, Some(10), QualityOfService::AtLeastOnce, false); a.interruption_count = c1;
+    let mut b = mk_subscribe_op(2, Some(11)); b.interruption_count = c2;
+    let mut c = mk_publish_op(3, None, QualityOfService::AtLeastOnce, false); c.interruption_count = c3;
+    st.operations.insert(1, a); st.operations.insert(2, b); st.operations.insert(3, c);
+    st.pending_publish_operations.insert(10, 1);
+    st.pending_non_publish_operations.insert(11, 2);
+    st.user_operation_queue.push_back(3);
+    st.update_interrupted_retries();
+    let inc = if limit.is_some() { 1 } else { 0 };
+    // exactly the written-but-unacknowledged operations are counted, and only when a limit is configured
+    assert!(st.operations.get(&1).unwrap().interruption_count == c1 + inc);
+    assert!(st.operations.get(&2).unwrap().interruption_count == c2 + inc);
+    assert!(st.operations.get(&3).unwrap().interruption_count == c3);
+    std::mem::forget(st);
+}
+
+// ------------------------------------------------------------------------------------------------
+// C15 offline-queue policy
+// ------------------------------------------------------------------------------------------------
+
+/// The table of the OfflineQueuePolicy documentation (client/config.rs), transcribed.
+fn oracle_policy(policy: OfflineQueuePolicy, is_publish: bool, qos: u8, is_sub_or_unsub: bool) -> bool {
+    match policy {
+        OfflineQueuePolicy::PreserveAll => is_publish || is_sub_or_unsub,
+        OfflineQueuePolicy::PreserveAcknowledged => (is_publish && qos > 0) || is_sub_or_unsub,
+        OfflineQueuePolicy::PreserveQos1PlusPublishes => is_publish && qos > 0,
+        _ => false,
+    }
+}
+
+// @gv props=C15 tier=quick required=yes fns=does_packet_pass_offline_queue_policy,ProtocolState::operation_packet_passes_offline_queue_policy
+// @gv bounds="the four policies x {publish QoS 0/1/2, subscribe, unsubscribe, pingreq, puback, disconnect} x the five engine states"
+#[kani::proof]
+#[kani::unwind(4)]
+#[kani::stub(std::fmt::format, stub_format)]
+fn c15_table() {
+    let pol = any_policy();
+    let q: u8 = kani::any();
+    kani::assume(q < 3);
+    let publish = MqttPacket::Publish(PublishPacket { qos: qos_of(q), ..Default::default() });
+    let sub = MqttPacket::Subscribe(SubscribePacket { ..Default::default() });
+    let unsub = MqttPacket::Unsubscribe(UnsubscribePacket { ..Default::default() });
+    let ping = MqttPacket::Pingreq(PingreqPacket {});
+    let ack = MqttPacket::Puback(PubackPacket { ..Default::default() });
+    let disc = MqttPacket::Disconnect(DisconnectPacket { ..Default::default() });
+    assert!(does_packet_pass_offline_queue_policy(&publish, &pol) == oracle_policy(pol, true, q, false));
+    assert!(does_packet_pass_offline_queue_policy(&sub, &pol) == oracle_policy(pol, false, 0, true));
+    assert!(does_packet_pass_offline_queue_policy(&unsub, &pol) == oracle_policy(pol, false, 0, true));
+    assert!(!does_packet_pass_offline_queue_policy(&ping, &pol));
+    assert!(!does_packet_pass_offline_queue_policy(&ack, &pol));
+    assert!(!does_packet_pass_offline_queue_policy(&disc, &pol));
+    // at submission: never failed for lack of a connection while connected; by the table otherwise
+    let mut cfg = mk_config();
+    cfg.offline_queue_policy = pol;
+    let mut st = ProtocolState::new(cfg);
+    st.state = any_state();
+    let connected = st.state == ProtocolStateType::Connected;
+    assert!(st.operation_packet_passes_offline_queue_policy(&publish) == (connected || oracle_policy(pol, true, q, false)));
+    assert!(st.operation_packet_passes_offline_queue_policy(&sub) == (connected || oracle_policy(pol, false, 0, true)));
+    assert!(st.operation_packet_passes_offline_queue_policy(&unsub) == (connected || oracle_policy(pol, false, 0, true)));
+    std::mem::forget(publish); std::mem::forget(sub); std::mem::forget(unsub); std::mem::forget(disc);
+    std::mem::forget(st);
+}
+
+fn partition_body(pol: OfflineQueuePolicy, q1: u8, q3: u8) {
+    // Packets are stack values and QoS is concrete per call: CBMC loses the variant of a Box<MqttPacket> read back
+    // through the operation table, and a symbolic retain/reject decision makes the two result queues' heap shapes
+    // symbolic (both measured: out of memory). The decision table itself is decided for all inputs by c15_table.
+    let p1 = MqttPacket::Publish(PublishPacket { qos: qos_of(q1), ..Default::default() });
+    let p2 = MqttPacket::Subscribe(SubscribePacket { ..Default::default() });
+    let p3 = MqttPacket::Publish(PublishPacket { qos: qos_of(q3), ..Default::default() });
+    let p4 = MqttPacket::Unsubscribe(UnsubscribePacket { ..Default::default() });
+    let items: [(u64, &MqttPacket); 4] = [(1, &p1), (2, &p2), (3, &p3), (4, &p4)];
+    // (array::IntoIter moves the references through MaybeUninit storage, after which CBMC no longer knows what they point to)
+    let (retained, rejected) = partition_operations_by_queue_policy(items.iter().map(|t| (t.0, t.1)), &pol);
+    let want_ret: [bool; 4] = [oracle_policy(pol, true, q1, false), oracle_policy(pol, false, 0, true), oracle_policy(pol, true, q3, false), oracle_policy(pol, false, 0, true)];
+    kani::cover!(retained.len() + rejected.len() == 4, "partition computed");
+    // an order-preserving partition by the policy table
+    assert!(retained.len() + rejected.len() == 4);
+    let (mut ri, mut ji) = (0usize, 0usize);
+    let mut i = 0;
+    while i < 4 {
+        let id = (i + 1) as u64;
+        if want_ret[i] { assert!(dq(&retained, ri) == id); ri += 1; } else { assert!(dq(&rejected, ji) == id); ji += 1; }
+        i += 1;
+    }
+    assert!(ri == retained.len() && ji == rejected.len());
+    std::mem::forget(retained); std::mem::forget(rejected);
+    std::mem::forget(p1); std::mem::forget(p2); std::mem::forget(p3); std::mem::forget(p4);
+}
+
+// @gv props=C15 tier=quick required=yes fns=ProtocolState::partition_operation_queue_by_queue_policy
+// @gv bounds="queue [publish QoS symbolic, stale id, subscribe] under PreserveNothing: stale ids are skipped, everything else is selected for failure in order"
+// @gv timeout=900
+#[kani::proof]
+#[kani::unwind(6)]
+#[kani::stub(std::fmt::format, stub_format)]
+fn c15_partition_skips_stale() {
+    let mut st = mk_state(ProtocolStateType::Disconnected);
+    st.operations.insert(1, mk_publish_op(1, None, any_qos(), false));
+    st.operations.insert(2, mk_subscribe_op(2, None));
+    let mut q: VecDeque<u64> = VecDeque::new();
+    q.push_back(1); q.push_back(9); q.push_back(2);
+    let (retained, rejected) = st.partition_operation_queue_by_queue_policy(&q, &OfflineQueuePolicy::PreserveNothing);
+    assert!(retained.is_empty() && rejected.len() == 2 && dq(&rejected, 0) == 1 && dq(&rejected, 1) == 2);
+    std::mem::forget(retained); std::mem::forget(rejected); std::mem::forget(q);
+    std::mem::forget(st);
+}
+
+// ------------------------------------------------------------------------------------------------
+// C07 connect / negotiated settings / state guards
+// ------------------------------------------------------------------------------------------------
+
+fn any_rejoin() -> RejoinSessionPolicy {
+    match kani::any::<u8>() % 3 { 0 => RejoinSessionPolicy::PostSuccess, 1 => RejoinSessionPolicy::Always, _ => RejoinSessionPolicy::Never }
+}
+
+// @gv props=C07,C02 tier=quick required=yes fns=ConnectOptions::to_connect_packet,ProtocolState::create_connect
+// @gv bounds="three rejoin policies x connected-before flag; every scalar connect option present/absent with symbolic value; configured client id of 2 symbolic bytes or absent; previously negotiated client id of 2 symbolic bytes or no previous settings"
+// @gv timeout=900
+#[kani::proof]
+#[kani::unwind(5)]
+#[kani::stub(std::fmt::format, stub_format)]
+fn c07_connect_faithful() {
+    let mut o = ConnectOptions::builder().build();
+    let pol = any_rejoin();
+    o.rejoin_session_policy = pol;
+    o.keep_alive_interval_seconds = if kani::any() { Some(kani::any()) } else { None };
+    o.session_expiry_interval_seconds = if kani::any() { Some(kani::any()) } else { None };
+    o.request_response_information = if kani::any() { Some(kani::any()) } else { None };
+    o.request_problem_information = if kani::any() { Some(kani::any()) } else { None };
+    o.receive_maximum = if kani::any() { Some(kani::any()) } else { None };
+    o.topic_alias_maximum = if kani::any() { Some(kani::any()) } else { None };
+    o.maximum_packet_size_bytes = if kani::any() { Some(kani::any()) } else { None };
+    o.will_delay_interval_seconds = if kani::any() { Some(kani::any()) } else { None };
+    let cid: [u8; 2] = kani::any();
+    kani::assume(cid[0] < 0x80 && cid[1] < 0x80);
+    let has_cid: bool = kani::any();
+    if has_cid { o.client_id = Some(unsafe { String::from_utf8_unchecked(cid.to_vec()) }); }
+    let before: bool = kani::any();
+    let expect = (o.keep_alive_interval_seconds, o.session_expiry_interval_seconds, o.request_response_information, o.request_problem_information,
+                  o.receive_maximum, o.topic_alias_maximum, o.maximum_packet_size_bytes, o.will_delay_interval_seconds);
+    let mut cfg = mk_config();
+    cfg.connect_options = o;
+    let mut st = ProtocolState::new(cfg);
+    st.has_connected_successfully = before;
+    let prev: [u8; 2] = kani::any();
+    kani::assume(prev[0] < 0x80 && prev[1] < 0x80);
+    let has_prev: bool = kani::any();
+    if has_prev { st.current_settings = Some(NegotiatedSettings { client_id: unsafe { String::from_utf8_unchecked(prev.to_vec()) }, ..Default::default() }); }
+    let packet = st.create_connect();
+    let c = match &*packet { MqttPacket::Connect(c) => c, _ => { assert!(false); unreachable!() } };
+    // clean start by policy and connection history
+    let want_clean = match pol { RejoinSessionPolicy::PostSuccess => !before, RejoinSessionPolicy::Always => false, RejoinSessionPolicy::Never => true };
+    assert!(c.clean_start == want_clean);
+    // every configured value copied unchanged
+    assert!(c.keep_alive_interval_seconds == expect.0.unwrap_or(0));
+    assert!(c.session_expiry_interval_seconds == expect.1 && c.request_response_information == expect.2 && c.request_problem_information == expect.3);
+    assert!(c.receive_maximum == expect.4 && c.topic_alias_maximum == expect.5 && c.maximum_packet_size_bytes == expect.6 && c.will_delay_interval_seconds == expect.7);
+    assert!(c.username.is_none() && c.password.is_none() && c.will.is_none() && c.user_properties.is_none());
+    assert!(c.authentication_method.is_none() && c.authentication_data.is_none());
+    // client id: the configured one, else the one the server assigned on an earlier connection
+    kani::cover!(!has_cid && has_prev, "server-assigned client id reused");
+    match &c.client_id {
+        Some(id) => { let b = id.as_bytes(); assert!(b.len() == 2); if has_cid { assert!(b[0] == cid[0] && b[1] == cid[1]); } else { assert!(has_prev && b[0] == prev[0] && b[1] == prev[1]); } }
+        None => { assert!(!has_cid && !has_prev); }
+    }
+    std::mem::forget(packet);
+    std::mem::forget(st);
+}
+
+// @gv props=C07 tier=quick required=yes fns=build_negotiated_settings
+// @gv bounds="all 2^11 present/absent combinations of the CONNACK properties with symbolic values; CONNECT keep-alive / session expiry present or absent; client id from CONNACK (1 byte) / CONNECT (1 byte) / previous settings (1 byte) / none"
+// @gv timeout=900
+#[kani::proof]
+#[kani::unwind(4)]
+#[kani::stub(std::fmt::format, stub_format)]
+fn c07_settings() {
+    let mut cfg = mk_config();
+    let ka_c: Option<u16> = if kani::any() { Some(kani::any()) } else { None };
+    let se_c: Option<u32> = if kani::any() { Some(kani::any()) } else { None };
+    cfg.connect_options.keep_alive_interval_seconds = ka_c;
+    cfg.connect_options.session_expiry_interval_seconds = se_c;
+    let src: u8 = kani::any();
+    kani::assume(src < 8);
+    let (b1, b2, b3): (u8, u8, u8) = (kani::any(), kani::any(), kani::any());
+    kani::assume(b1 < 0x80 && b2 < 0x80 && b3 < 0x80);
+    if src & 2 != 0 { cfg.connect_options.client_id = Some(unsafe { String::from_utf8_unchecked(vec![b2]) }); }
+    let existing = if src & 4 != 0 { Some(NegotiatedSettings { client_id: unsafe { String::from_utf8_unchecked(vec![b3]) }, ..Default::default() }) } else { None };
+    let mq: Option<QualityOfService> = if kani::any() { Some(any_qos()) } else { None };
+    let connack = ConnackPacket {
+        session_present: kani::any(),
+        session_expiry_interval: if kani::any() { Some(kani::any()) } else { None },
+        receive_maximum: if kani::any() { Some(kani::any()) } else { None },
+        maximum_qos: mq,
+        retain_available: if kani::any() { Some(kani::any()) } else { None },
+        maximum_packet_size: if kani::any() { Some(kani::any()) } else { None },
+        assigned_client_identifier: if src & 1 != 0 { Some(unsafe { String::from_utf8_unchecked(vec![b1]) }) } else { None },
+        topic_alias_maximum: if kani::any() { Some(kani::any()) } else { None },
+        wildcard_subscriptions_available: if kani::any() { Some(kani::any()) } else { None },
+        subscription_identifiers_available: if kani::any() { Some(kani::any()) } else { None },
+        shared_subscriptions_available: if kani::any() { Some(kani::any()) } else { None },
+        server_keep_alive: if kani::any() { Some(kani::any()) } else { None },
+        ..Default::default()
+    };
+    let s = build_negotiated_settings(&cfg, &connack, &existing);
+    // CONNACK value, else CONNECT value, else the specification default (MQTT5 3.2.2.3)
+    assert!(s.maximum_qos == mq.unwrap_or(QualityOfService::ExactlyOnce));
+    assert!(s.session_expiry_interval == connack.session_expiry_interval.unwrap_or(se_c.unwrap_or(0)));
+    assert!(s.receive_maximum_from_server == connack.receive_maximum.unwrap_or(65535));
+    assert!(s.maximum_packet_size_to_server == connack.maximum_packet_size.unwrap_or(268435455));
+    assert!(s.topic_alias_maximum_to_server == connack.topic_alias_maximum.unwrap_or(0));
+    assert!(s.server_keep_alive == connack.server_keep_alive.unwrap_or(ka_c.unwrap_or(0)));
+    assert!(s.retain_available == connack.retain_available.unwrap_or(true));
+    assert!(s.wildcard_subscriptions_available == connack.wildcard_subscriptions_available.unwrap_or(true));
+    assert!(s.subscription_identifiers_available == connack.subscription_identifiers_available.unwrap_or(true));
+    assert!(s.shared_subscriptions_available == connack.shared_subscriptions_available.unwrap_or(true));
+    assert!(s.rejoined_session == connack.session_present);
+    let id = s.client_id.as_bytes();
+    if src & 1 != 0 { assert!(id.len() == 1 && id[0] == b1); }
+    else if src & 2 != 0 { assert!(id.len() == 1 && id[0] == b2); }
+    else if src & 4 != 0 { assert!(id.len() == 1 && id[0] == b3); }
+    else { assert!(id.is_empty()); }
+    std::mem::forget(s); std::mem::forget(connack); std::mem::forget(cfg); std::mem::forget(existing);
+}
+
+// @gv props=C07,C11 tier=quick required=yes fns=ProtocolState::handle_network_event_connection_opened,ProtocolState::create_operation,ProtocolState::enqueue_operation
+// @gv bounds="connection opened in each of the five engine states; symbolic establishment deadline; a stale id already in the high-priority queue (the CONNECT must go in front of it)"
+// @gv timeout=900
+#[kani::proof]
+#[kani::unwind(5)]
+#[kani::stub(std::fmt::format, stub_format)]
+fn c07_opened() {
+    let mut st = mk_state(any_state());
+    let s0 = st.state;
+    st.high_priority_operation_queue.push_back(900);
+    st.pending_write_completion = kani::any();
+    let deadline = at(kani::any::<u32>() as u64);
+    let mut events: VecDeque<PacketEvent> = VecDeque::new();
+    let r = {
+        let ctx = NetworkEventContext { event: NetworkEvent::ConnectionOpened(super::ConnectionOpenedContext { establishment_timeout: deadline }), current_time: zero_instant(), packet_events: &mut events };
+        st.handle_network_event_connection_opened(&ctx)
+    };
+    kani::cover!(s0 == ProtocolStateType::Disconnected, "opened from Disconnected");
+    assert!(r.is_ok() == (s0 == ProtocolStateType::Disconnected));
+    if r.is_ok() {
+        assert!(st.state == ProtocolStateType::PendingConnack);
+        assert!(st.connack_timeout_timepoint == Some(deadline));
+        assert!(!st.pending_write_completion && st.current_operation.is_none());
+        // exactly one CONNECT, at the FRONT of the high-priority queue
+        assert!(st.high_priority_operation_queue.len() == 2);
+        let id = *st.high_priority_operation_queue.front().unwrap();
+        assert!(matches!(&*st.operations.get(&id).unwrap().packet, MqttPacket::Connect(_)));
+        assert!(st.operations.len() == 1);
+    } else {
+        assert!(st.state == ProtocolStateType::Halted);
+        assert!(st.operations.len() == 0);
+    }
+    std::mem::forget(r); std::mem::forget(events); std::mem::forget(st);
+}
+
+// @gv props=C07,C11 tier=quick required=yes fns=ProtocolState::handle_connack
+// @gv bounds="CONNACK (symbolic session flag) arriving in each engine state other than PendingConnack: protocol error, no state change, nothing surfaced"
+// @gv timeout=900
+#[kani::proof]
+#[kani::unwind(5)]
+#[kani::stub(std::fmt::format, stub_format)]
+fn c07_connack_wrong_state() {
+    let mut st = mk_state(any_state());
+    kani::assume(st.state != ProtocolStateType::PendingConnack);
+    let s0 = st.state;
+    let mut events: VecDeque<PacketEvent> = VecDeque::new();
+    let r = {
+        let mut ctx = net_ctx(&mut events, zero_instant());
+        st.handle_connack(Box::new(MqttPacket::Connack(ConnackPacket { session_present: kani::any(), ..Default::default() })), &mut ctx)
+    };
+    assert!(r.is_err());
+    assert!(st.state == s0 && st.current_settings.is_none() && events.is_empty() && !st.has_connected_successfully);
+    std::mem::forget(r); std::mem::forget(events); std::mem::forget(st);
+}
+
+// @gv props=C07,C11 tier=quick required=yes fns=ProtocolState::handle_connack
+// @gv bounds="failing CONNACK (reason code symbolic among three failing codes) while PendingConnack: connection-establishment error, CONNACK surfaced once, engine not connected"
+// @gv timeout=900
+#[kani::proof]
+#[kani::unwind(5)]
+#[kani::stub(std::fmt::format, stub_format)]
+fn c07_connack_failing() {
+    let mut st = mk_state(ProtocolStateType::PendingConnack);
+    st.connack_timeout_timepoint = Some(at(30));
+    let rc = match kani::any::<u8>() % 3 { 0 => ConnectReasonCode::NotAuthorized, 1 => ConnectReasonCode::ServerBusy, _ => ConnectReasonCode::UnspecifiedError };
+    let mut events: VecDeque<PacketEvent> = VecDeque::new();
+    let r = {
+        let mut ctx = net_ctx(&mut events, zero_instant());
+        st.handle_connack(Box::new(MqttPacket::Connack(ConnackPacket { reason_code: rc, ..Default::default() })), &mut ctx)
+    };
+    assert!(r.is_err());
+    assert!(st.state == ProtocolStateType::PendingConnack && st.current_settings.is_none() && !st.has_connected_successfully);
+    assert!(events.len() == 1);
+    assert!(matches!(events.front(), Some(PacketEvent::Connack(c)) if c.reason_code == rc));
+    std::mem::forget(r); std::mem::forget(events); std::mem::forget(st);
+}
+
+// ------------------------------------------------------------------------------------------------
+// C11 handler guards and absorbing states
+// ------------------------------------------------------------------------------------------------
+
+fn guard_body(kind: u8) {
+    let mut st = mk_state(if kani::any() { ProtocolStateType::Disconnected } else { ProtocolStateType::PendingConnack });
+    let pid: u16 = kani::any();
+    let mut events: VecDeque<PacketEvent> = VecDeque::new();
+    let r = {
+        let mut ctx = net_ctx(&mut events, zero_instant());
+        match kind {
+            0 => st.handle_publish(Box::new(MqttPacket::Publish(PublishPacket { packet_id: pid, qos: any_qos(), ..Default::default() })), &mut ctx),
+            1 => st.handle_puback(Box::new(MqttPacket::Puback(PubackPacket { packet_id: pid, ..Default::default() }))),
+            2 => st.handle_pubrec(Box::new(MqttPacket::Pubrec(PubrecPacket { packet_id: pid, ..Default::default() }))),
+            3 => st.handle_pubrel(Box::new(MqttPacket::Pubrel(PubrelPacket { packet_id: pid, ..Default::default() }))),
+            4 => st.handle_pubcomp(Box::new(MqttPacket::Pubcomp(PubcompPacket { packet_id: pid, ..Default::default() }))),
+            5 => st.handle_suback(Box::new(MqttPacket::Suback(SubackPacket { packet_id: pid, ..Default::default() }))),
+            6 => st.handle_unsuback(Box::new(MqttPacket::Unsuback(UnsubackPacket { packet_id: pid, ..Default::default() }))),
+            7 => st.handle_disconnect(Box::new(MqttPacket::Disconnect(DisconnectPacket { ..Default::default() })), &mut ctx),
+            _ => st.handle_pingresp(),
+        }
+    };
+    // a packet that is illegal before CONNACK is a clean protocol error: nothing surfaced, queued or recorded
+    assert!(r.is_err());
+    assert!(events.is_empty() && st.high_priority_operation_queue.is_empty() && st.operations.len() == 0);
+    assert!(st.qos2_incomplete_incoming_publishes.is_empty());
+    std::mem::forget(r); std::mem::forget(events); std::mem::forget(st);
+}
+
+// @gv props=C11 tier=quick required=yes fns=ProtocolState::handle_auth
+// @gv bounds="AUTH packet in any of the five engine states: error, state unchanged, nothing surfaced (the dispatcher handle_packet itself is outside: it reaches every handler)"
+#[kani::proof]
+#[kani::unwind(4)]
+#[kani::stub(std::fmt::format, stub_format)]
+fn c11_auth_rejected() {
+    let mut st = mk_state(any_state());
+    let s0 = st.state;
+    let mut events: VecDeque<PacketEvent> = VecDeque::new();
+    let r = {
+        let mut ctx = net_ctx(&mut events, zero_instant());
+        st.handle_auth(Box::new(MqttPacket::Auth(AuthPacket { ..Default::default() })), &mut ctx)
+    };
+    assert!(r.is_err());
+    assert!(st.state == s0 && events.is_empty() && st.operations.len() == 0);
+    std::mem::forget(r); std::mem::forget(events); std::mem::forget(st);
+}
+
+// @gv props=C11 tier=quick required=yes fns=ProtocolState::service,ProtocolState::handle_network_event,ProtocolState::get_next_service_timepoint
+// @gv bounds="Halted engine with one retained publish (symbolic QoS) in the resubmit queue: service, incoming data (2 symbolic bytes), write completion, connection opened; then connection closed"
+// @gv timeout=900 mem=12
+#[kani::proof]
+#[kani::unwind(6)]
+#[kani::stub(std::fmt::format, stub_format)]
+fn c11_halted_absorbing() {
+    let mut st = mk_state(ProtocolStateType::Halted);
+    let q = if kani::any() { QualityOfService::AtLeastOnce } else { QualityOfService::ExactlyOnce };
+    st.operations.insert(1, mk_publish_op(1, Some(5), q, true));
+    st.allocated_packet_ids.insert(5, 1);
+    st.resubmit_operation_queue.push_back(1);
+    let now = at(kani::any::<u32>() as u64);
+    let mut to_socket: Vec<u8> = Vec::with_capacity(16);
+    let r1 = { let mut sctx = ServiceContext { to_socket: &mut to_socket, current_time: now }; st.service(&mut sctx) };
+    assert!(r1.is_err() && to_socket.is_empty() && st.state == ProtocolStateType::Halted);
+    assert!(st.get_next_service_timepoint(&now).is_none());
+    let data: [u8; 2] = kani::any();
+    let mut events: VecDeque<PacketEvent> = VecDeque::new();
+    let which: u8 = kani::any();
+    kani::assume(which < 3);
+    let r2 = {
+        let ev = match which { 0 => NetworkEvent::IncomingData(&data), 1 => NetworkEvent::WriteCompletion,
+                               _ => NetworkEvent::ConnectionOpened(super::ConnectionOpenedContext { establishment_timeout: now }) };
+        let mut ctx = NetworkEventContext { event: ev, current_time: now, packet_events: &mut events };
+        st.handle_network_event(&mut ctx)
+    };
+    // after an error the engine accepts no more traffic and emits nothing; unresolved operations survive intact
+    assert!(r2.is_err() && st.state == ProtocolStateType::Halted && events.is_empty());
+    assert!(st.operations.len() == 1 && st.resubmit_operation_queue.len() == 1 && st.allocated_packet_ids.get(&5) == Some(&1));
+    assert!(unsafe { CALLS } == 0);
+    std::mem::forget(r1); std::mem::forget(r2); std::mem::forget(events); std::mem::forget(st);
+}
+
 include!("protocol_gen.rs");
+
+
